@@ -593,8 +593,8 @@ func firstLine(s string) string {
 	if i := strings.IndexByte(s, '\n'); i >= 0 {
 		s = s[:i]
 	}
-	if len(s) > 110 {
-		s = s[:110] + "…"
+	if r := []rune(s); len(r) > 110 {
+		s = string(r[:110]) + "…"
 	}
 	return s
 }
